@@ -5,7 +5,7 @@ MICRO = {
 PROPS = {
     'C12': dict(
         micro=['sentpk', 'cc'],
-        modelled="sent_packets.rs SentPackets::{insert,remove,get,has_in_flight,range,values_mut,into_values} (ring with holes, front reclamation, in_flight counter); spaces.rs PacketSpace::{sent,take} (unacked_non_ack_eliciting_tail, largest_ack_eliciting_sent, forgotten tail); paths.rs InFlight::{insert,remove}, PathData::{sent,remove_in_flight} (generation check); the take+remove_in_flight / mem::take loops of Connection::{on_ack_received,detect_lost_packets,discard_space,Retry,0-RTT rejection} over one path and three spaces; congestion/new_reno.rs exactly (incl. the f32 halving and u64 overflow panics); congestion/cubic.rs integer skeleton (slow start, cwnd_inc credit, ssthresh/window clamps, persistent congestion, spurious-event restore, MTU update) with w_cubic/w_est/cubic_inc/beta-reductions as observed inputs; congestion/bbr/mod.rs window-relevant skeleton (round/recovery state machine, calculate_cwnd clamp, calculate_recovery_window, on_mtu_update, window()) with the bandwidth sampler, ack aggregation, mode machine and target windows as observed inputs; the congestion test of Connection::poll_transmit (generated)",
-        not_modelled="more than one path (prev_path / migration), PacketNumberFilter, detect_lost_packets thresholds (no_spurious_loss), pacing; the poll_transmit exemptions (probes, MTU probes, path validation, close) are delimited, not proved; BBR's mode machine / bandwidth estimation are inputs, not modelled; release-build wrapping arithmetic",
+        modelled="sent_packets.rs SentPackets::{insert,remove,get,has_in_flight,range,values_mut,into_values} (ring with holes, front reclamation, in_flight counter); spaces.rs PacketSpace::{sent,take} (unacked_non_ack_eliciting_tail, largest_ack_eliciting_sent, forgotten tail); paths.rs InFlight::{insert,remove}, PathData::{sent,remove_in_flight} (generation check); the take+remove_in_flight / mem::take loops of Connection::{on_ack_received,detect_lost_packets,discard_space,Retry,0-RTT rejection} over one path and three spaces; congestion/new_reno.rs exactly (incl. the f32 halving and u64 overflow panics); congestion/cubic.rs integer skeleton (slow start, cwnd_inc credit, ssthresh/window clamps, persistent congestion, spurious-event restore, MTU update) with w_cubic/w_est/cubic_inc/beta-reductions as observed inputs; congestion/bbr/mod.rs window-relevant skeleton (round/recovery state machine, calculate_cwnd clamp, calculate_recovery_window, on_mtu_update, window()) with the bandwidth sampler, ack aggregation, mode machine and target windows as observed inputs; the congestion test of Connection::poll_transmit (generated); the loss decision of Connection::detect_lost_packets (candidate range, packet_too_old, packet/time threshold disjunction, loss_delay >= TIMER_GRANULARITY: generated; rtt*time_threshold opaque) on an abstract loss-free in-order path",
+        not_modelled="more than one path (prev_path / migration), PacketNumberFilter, persistent congestion / loss_time / MTU-probe handling of detect_lost_packets, detect_spurious_loss, pacing; the poll_transmit exemptions (probes, MTU probes, path validation, close) are delimited, not proved; BBR's mode machine / bandwidth estimation are inputs, not modelled; release-build wrapping arithmetic",
     ),
 }
